@@ -97,7 +97,7 @@ def run(ctx):
                     ("TakeSnapshot", 45, 400, 2, dict(bg=True, gap_us=300)), ("CameraInfo", 45, 400, 1, dict(bg=True, gap_us=300)),
                     ("TakeTestRecording", 46, 200, 1, dict(bg=True, gap_us=700))]
             c1, s1 = stream(rng, w, h, 1, 50, reqs)
-            c2, s2 = stream(rng, w, h, 100, 40, reqs)           # reconnect
+            c2, s2 = stream(rng, w, h, 100, 62, reqs + [("TakeSnapshot", 44, 300, 2, dict(gap_us=200))])   # reconnect; frame counts overlap those of the first connection
             scen = dict(config=fam_e2e.toml(settings), prefiles=[], conns=[c1, c2])
             sp, op = ctx.path("e2e", "race%d.json" % k), ctx.path("e2e", "race%d.ndjson" % k)
             json.dump(scen, open(sp, "w"))
@@ -114,6 +114,19 @@ def run(ctx):
                 events.append(dict(ev="race", pair=pr, run=k))
             if os.path.exists(op):
                 collect(events, vlib.read_ndjson(op), s1 + s2, [c1, c2], check_pipeline=True)
+    # ---------------- exact frame counts: one snapshot after the k-th frame of a connection, the same k after a reconnect
+    binp0 = ctx.go_test_build("./cmd/thermal-recorder", "tr.test")
+    for k in ([3, 7] if tier == "quick" else [1, 2, 3, 5, 7, 12, 20]):
+        rq = [("TakeSnapshot", k, 1, 1, dict(sync=True)), ("TakeSnapshot", k + 4, 1, 1, dict(sync=True))]
+        c1, s1 = stream(rng, 4, 3, 1, k + 6, rq, clears=0)
+        c2, s2 = stream(rng, 4, 3, 100, k + 9, [("TakeSnapshot", k + 4, 1, 1, dict(sync=True)), ("TakeSnapshot", k + 5, 2, 1, dict(sync=True))], clears=0)
+        c3, s3 = stream(rng, 4, 3, 200, k + 9, [("TakeSnapshot", k + 5, 1, 1, dict(sync=True))], clears=0)
+        try:
+            evs = fam_e2e.run_e2e(ctx, binp0, dict(config=fam_e2e.toml(settings), prefiles=[], conns=[c1, c2, c3]), "exact%d" % k)
+        except fam_e2e.DaemonCrash as dc:
+            events.append(dict(ev="crash", msg=dc.msg[-800:]))
+            continue
+        collect(events, evs, s1 + s2 + s3, [c1, c2, c3], check_pipeline=False)
     # ---------------- stress without the race detector: capacity-1 ring, large frames, many cores
     binp = ctx.go_test_build("./cmd/thermal-recorder", "tr.test")
     nstress = 2 if tier == "quick" else 16
@@ -170,12 +183,22 @@ def collect(events, evs, sent, conns, check_pipeline):
             # did not change during the request (cnt = frames completed on it when the request started)
             vals, lb = e["reply"]["values"], 0
             if e.get("same") and e.get("cnt", 0) >= 1 and len(vals) == 1:
-                for c in conns:
-                    pv = c["frame_vals"]
-                    if vals[0] in pv and e["cnt"] <= len(pv):
+                pc = e.get("pconn", -1)
+                if 0 <= pc < len(conns):
+                    # the processor of connection pc served the request from start to end: the image must be one of ITS
+                    # frames, the cnt-th or a newer one (an image of an earlier connection counts as older)
+                    pv = conns[pc]["frame_vals"]
+                    if e["cnt"] <= len(pv):
                         lb = pv[e["cnt"] - 1]
-                if vals[0] == 0:
-                    lb = 1      # an empty image although cnt >= 1 frames had completed on this processor
+                        if vals[0] not in pv:
+                            vals = [min(vals[0], lb - 1)]
+                else:
+                    for c in conns:
+                        pv = c["frame_vals"]
+                        if vals[0] in pv and e["cnt"] <= len(pv):
+                            lb = pv[e["cnt"] - 1]
+                if e["reply"]["values"][0] == 0:
+                    lb = max(lb, 1)      # an empty image although cnt >= 1 frames had completed on this processor
             events.append(dict(ev="snap", values=vals, lb=lb, sent=sent, conn=e["conn"], cnt=e.get("cnt", 0)))
         elif e["member"] == "CameraInfo" and "reply" in e:
             hdr = conns[e["conn"]]["header"]
